@@ -38,6 +38,13 @@ LEVELS = {l: Lv(l) for l in (1, 3, 5)}
 
 
 # ------------------------------------------------------------------------------------- generators
+def gen_zero(rng, L, be):
+    """a stored representative of zero (the x86 back-end also stores non-canonical ones: multiples of q below 2^B)"""
+    if be == "ref":
+        return 0
+    return rng.choice([k * L.p for k in range(4) if k * L.p < L.dom(be)])
+
+
 def gen_elem(rng, L, be, hist=None):
     """one stored representative in the domain of back-end `be`, drawn from structured classes"""
     D, p, n = L.dom(be), L.p, L.n
@@ -337,11 +344,12 @@ def gen_lines(rng, L, be, n_cheap, n_exp, hist, ophist, for_c06=False):
         elif k < 13:
             ln = 1 + rng.below(16)
             xs = []
+            zmode = rng.below(6)        # 0: zeros sprinkled in, 1: only zeros, 2: a single zero at either end, else none forced
+            zpos = rng.choice([0, ln - 1])
             for _i in range(ln):
-                while True:
-                    a = E2()
-                    if (L.val(a[0]), L.val(a[1])) != (0, 0):
-                        break
+                a = E2()
+                if zmode == 1 or (zmode == 0 and rng.below(3) == 0) or (zmode == 2 and _i == zpos):
+                    a = (gen_zero(rng, L, be), gen_zero(rng, L, be))
                 xs += [a[0], a[1]]
             add("fp2_batched_inv", 0, ln, *xs)
         elif k == 13:
@@ -607,7 +615,7 @@ def oracle(L, be, line, res):
         want = [cinv(p, x) for x in xs]
         if got != want:
             if any(x == (0, 0) for x in xs):
-                return bad("a zero entry zeroes every entry (not element-wise inversion)", key="fp2_batched_inv:contains-zero")
+                return bad("batch with a zero entry: not element-wise inversion with 0 -> 0 (before commit 17faca0 a zero entry zeroed every entry)", key="fp2_batched_inv:contains-zero")
             return bad("not element-wise inversion")
         return None
     if op == "fp2_pow_vartime":
